@@ -16,7 +16,15 @@ if os.path.exists("/tmp/seed_suite.jsonl"):
         k = int(d["dir"].split("/")[-1]) + (2 if "/seeds2/" in d["dir"] else 4 if "/seeds3/" in d["dir"] else 6 if "/seeds4/" in d["dir"] else 0)   # round 2: <id>-3/-4, round 3: <id>-5/-6
         suite[d["dir"].split("/")[-2] + "-" + str(k)] = d
 rows = []
-for d in sorted(glob.glob(os.path.join(VERIF, "seeded", "C*-*"))):
+if len(sys.argv) > 1 and sys.argv[1] == "--collect":
+    # only rebuild RESULTS.md from the `verified` blocks that earlier (possibly parallel, one worktree each) runs wrote
+    for d in sorted(glob.glob(os.path.join(VERIF, "seeded", "C*-*"))):
+        meta = json.load(open(os.path.join(d, "meta.json")))
+        v = meta.get("verified", {})
+        rows.append((os.path.basename(d), meta["property"], v.get("check_exit"), ", ".join(v.get("check_clauses") or []),
+                     (meta.get("summary") or "")[:140].replace("|", "/").replace("\n", " ")))
+    sys.argv = sys.argv[:1]
+for d in ([] if rows else sorted(glob.glob(os.path.join(VERIF, "seeded", "C*-*")))):
     name = os.path.basename(d)
     if len(sys.argv) > 1 and name not in sys.argv[1:]:
         continue
